@@ -207,7 +207,8 @@ type caseRun struct {
 	dead             map[interface{}]bool // … and those (and the writers) abandoned by a simulated crash: they record nothing any more
 	gen              int                  // incremented by a simulated crash
 	lastGrabX        uint64               // acknowledgements taken by the persister's latest grab
-	relNotObs        int         // acknowledgements released by the persister whose observation (Batch return / callback) is not recorded yet
+	csGate           *closeStartGate      // closetwice scenario
+	relNotObs        int                  // acknowledgements released by the persister whose observation (Batch return / callback) is not recorded yet
 	hgen             int                  // handle generation: bumped when a writer is abandoned (simulated crash, callers left blocked)
 	closeErrArmed    bool                 // closeerr scenario: Load closers close, then report an error
 	closeErrInjected int
@@ -773,6 +774,7 @@ func (c *caseRun) config() index.Config {
 			c.mu.Unlock()
 		}
 	}
+	cfg.EventCallback = c.eventHook // closetwice.go: parks the first Close at EventKindCloseStart when armed
 	if c.cfgHook != nil {
 		c.cfgHook(&cfg)
 	}
@@ -1295,6 +1297,10 @@ func (h *H) Gen(r *hlib.Rand, tier string, scale int, emit func(string)) {
 			live = append(live, d.tok)
 			ins("skipmerge "+a.String()+" "+b.String()+" "+d.String(), 2)
 		}
+		if ci%3 == 2 {
+			ins("closetwice", 3)
+			ops = append(ops, "b "+mk())
+		}
 		if ci%2 == 1 {
 			ins("closeerr", 3)
 			ops = append(ops, "b "+mk())
@@ -1322,7 +1328,7 @@ func (h *H) Gen(r *hlib.Rand, tier string, scale int, emit func(string)) {
 				openRd = nil
 				emit(op)
 			default:
-				if strings.HasPrefix(op, "closerace ") || strings.HasPrefix(op, "crashreopen ") || op == "closeerr" {
+				if strings.HasPrefix(op, "closerace ") || strings.HasPrefix(op, "crashreopen ") || op == "closeerr" || op == "closetwice" {
 					openRd = nil
 				}
 				emit(op)
@@ -1461,6 +1467,10 @@ func (h *H) Exec(line string, out func(string, string), st *hlib.Stats, work str
 			st.Count("op:skipmerge")
 			c.skipMerge(parseSpec(f[1]), parseSpec(f[2]), parseSpec(f[3]), st)
 		}
+	case "closetwice":
+		// two goroutines close the same writer, the first parked inside close()
+		st.Count("op:closetwice")
+		c.closeTwice(st)
 	case "closeerr":
 		// close the writer while every Load closer reports an error after closing; the directory must open again at once
 		st.Count("op:closeerr")
